@@ -28,6 +28,11 @@ class World:
         src = op.get('src')
         if src is None:
             src = lang.render(op['prog'], op.get('style', 0))
+        pf = op.get('probe_fault')
+        self.host.probe_calls = 0
+        self.model.probe_calls = 0
+        self.host.probe_faults = {int(pf): 'raise'} if pf else {}
+        self.model.probe_faults = {int(pf): 'raise'} if pf else {}
         rout = real_eval(self.parser, src, self.names, budget=budget, rec=rec)
         mout = self.model.run(op['prog'])
         judged = compare_with_model(ctx, mout, rout, self.model.host, self.names, 'step %d %r' % (step, src[:200]),
@@ -47,3 +52,71 @@ def model_only(cfg):
     fns = list(cfg.get('host_fns', ()))
     mnames = {k: lang.dec_value(v) for k, v in cfg.get('names', {}).items()}
     return Model(mnames, host_fns=fns, builtin_names=None)
+
+
+def container_targets(model, depth=2, limit=4):
+    """(expression tree, model object) of every container addressable from the model's host names."""
+    out = []
+
+    def walk(expr, v, d):
+        out.append((expr, v))
+        if d <= 0:
+            return
+        if isinstance(v, list):
+            for i, x in enumerate(v[:limit]):
+                if isinstance(x, (list, dict)):
+                    walk(['index', expr, ['num', str(i)]], x, d - 1)
+        else:
+            for k, x in list(v.items())[:limit]:
+                if isinstance(x, (list, dict)) and isinstance(k, str):
+                    walk(['index', expr, ['str', k]], x, d - 1)
+    for nm, v in model.host.items():
+        if isinstance(v, (list, dict)):
+            walk(['name', nm], v, depth)
+    return out
+
+
+def resolve_path(root_names, kept, target):
+    """target: ["names", name, k1, k2...] or ["kept", i, k1, ...] -> object (or raises LookupError/TypeError)."""
+    if target[0] == 'names':
+        o = root_names[target[1]]
+    else:
+        o = kept[target[1]]
+    for k in target[2:]:
+        o = o[k]
+    return o
+
+
+def host_mutate(obj, how, arg=None):
+    """The host mutates an object it holds a reference to, between calls. Returns True if something changed."""
+    if isinstance(obj, list):
+        if how == 'append':
+            obj.append(arg); return True
+        if how == 'clear':
+            ch = bool(obj); obj.clear(); return ch
+        if how == 'pop' and obj:
+            obj.pop(); return True
+        if how == 'set0' and obj:
+            obj[0] = arg; return True
+        if how == 'nested_append':
+            for x in obj:
+                if isinstance(x, list):
+                    x.append(arg); return True
+                if isinstance(x, dict):
+                    x['hm'] = arg; return True
+            return False
+    elif isinstance(obj, dict):
+        if how in ('append', 'set0'):
+            obj['hm'] = arg; return True
+        if how == 'clear':
+            ch = bool(obj); obj.clear(); return ch
+        if how == 'pop' and obj:
+            obj.pop(next(iter(obj))); return True
+        if how == 'nested_append':
+            for x in obj.values():
+                if isinstance(x, list):
+                    x.append(arg); return True
+                if isinstance(x, dict):
+                    x['hm'] = arg; return True
+            return False
+    return False
